@@ -85,6 +85,7 @@ def run_check(prop, tier, jobs):
     tasks = []
     builts = {}
     build_errors = []
+    all_spec_names = set(); found_names = set()
     try:
         for cn in cfgs:
             try:
@@ -96,6 +97,10 @@ def run_check(prop, tier, jobs):
             for fn, sp in sorted(b.model.specs.items()):
                 if sp.harness is None:
                     continue
+                all_spec_names.add(fn)
+                if fn not in b.model.em.by_cname:
+                    continue            # not instantiated in this configuration
+                found_names.add(fn)
                 if relevant(sp, prop):
                     tasks.append((b, fn))
         results = []
@@ -104,6 +109,8 @@ def run_check(prop, tier, jobs):
             for fut in concurrent.futures.as_completed(futs):
                 results.append(fut.result())
         known = load_known()
+        for nm in sorted(all_spec_names - found_names):
+            build_errors.append('contract target %s exists in no configuration of this tier (renamed or removed?)' % nm)
         violations = []; known_hits = []; undecided = list(build_errors)
         obligations = discharged = 0
         samples = []
